@@ -14,6 +14,7 @@ def check(ctx: Ctx) -> None:
     rr = risk_common.RiskReplay(ctx, "")
     rr.replay_values(singles)
     risk_common.spellings(ctx, singles)
+    risk_common.levels_near_a_count(ctx)
     risk_common.selftest_values(ctx, singles)
     import json
     for r in singles:
